@@ -93,6 +93,8 @@ def op_to_coq(op):
             return "(OMk %s)" % to_coq(from_json(op["v"]))
         except (ValueError, TypeError):
             return None
+    if o in ("construct", "factory_create", "bundle") and op["cls"].startswith("custom."):
+        return None               # classes registered by the worker are not in the model's class tables
     if o == "construct":
         return "(OConstruct %s %d)" % (us(op["cls"]), op["kw"])
     if o == "bundle":
@@ -811,10 +813,77 @@ def sc_stores(rng):
     return b.case()
 
 
-SNAPSHOT_ONLY = [(sc_api, 3), (sc_stores, 2)]
+CUSTOM_EXT = {
+    "VerifObj": ("x-verif-obj", "extension-definition--0c9d6f0e-5a4b-4f7e-9d25-11a0c13c0001"),
+    "VerifObj2": ("x-verif-obj2", "extension-definition--0c9d6f0e-5a4b-4f7e-9d25-11a0c13c0002"),
+    "VerifSco": ("x-verif-sco", "extension-definition--0c9d6f0e-5a4b-4f7e-9d25-11a0c13c0003"),
+    "VerifPlain": ("x-verif-plain", None),
+}
 
 
-KIND_OF = {sc_api_markings: "api-markings", sc_extensions: "extensions", sc_observed: "observed-data", sc_sdo: "sdo", sc_markings: "markings",
+def sc_custom_types(rng):
+    """custom object / observable classes registered through the public decorators, some with
+    extension_name= (their constructor adds the type's own extension to the object's `extensions`);
+    the caller's `extensions` dict -- with entries that need no conversion, entries that do, or
+    extension objects -- is reused across constructions of several types"""
+    b = B(rng, "custom-types")
+    ext = {}
+    r = rng.random()
+    if r < 0.3:
+        pass                                                     # empty dict
+    if 0.2 < r < 0.7:
+        ext["extension-definition--%s" % uuid.UUID(int=rng.getrandbits(128), version=4)] = \
+            {"extension_type": "property-extension", "rank": rng.randint(1, 5), "tags": ["a", "b"]}
+    if 0.55 < r < 0.8:
+        ext["extension-definition--%s" % uuid.UUID(int=rng.getrandbits(128), version=4)] = \
+            {"extension_type": "toplevel-property-extension"}
+    if r >= 0.8:
+        sub = b.add(op="construct", cls="v21.PDFExt", kw=b.mk({"version": "1.4"}))
+        ext["pdf-ext"] = Ref(sub)                                # a value that already is an extension object
+    e = b.mk(ext)
+    names = rng.sample(["VerifObj", "VerifObj2", "VerifSco", "VerifPlain"], rng.randint(2, 3))
+    objs = []
+    for n in names:
+        kw = {"name": "n%d" % rng.randint(0, 9)}
+        if rng.random() < 0.5:
+            kw["items"] = Ref(b.mk(["i1", "i2"])) if rng.random() < 0.5 else ["i1"]
+        if rng.random() < 0.4:
+            kw["meta"] = Ref(b.mk({"k": "v"}))
+        if rng.random() < 0.85:
+            kw["extensions"] = Ref(e)
+        k = b.mk(kw)
+        objs.append(b.add(op="construct", cls="custom." + n, kw=k, allow_custom=True))
+        if rng.random() < 0.4:
+            b.add(op="construct", cls="custom." + n, kw=k, allow_custom=True)      # the same inputs again
+    n = rng.choice(names)
+    ty, _ = CUSTOM_EXT[n]
+    full = {"type": ty, "spec_version": "2.1", "id": new_id(rng, ty), "name": "p", "extensions": Ref(e)}
+    if n != "VerifSco":
+        full["created"] = TS[0]
+        full["modified"] = TS[1]
+    fd = b.mk(full)
+    if n == "VerifSco" and rng.random() < 0.5:
+        b.add(op="parse_observable", arg=fd, version="2.1", allow_custom=True)
+    else:
+        b.add(op="parse", arg=fd, version=rng.choice([None, "2.1"]), allow_custom=True)
+    r = rng.random()
+    tgt = rng.choice(objs)
+    if r < 0.3:
+        b.add(op="deepcopy", arg=tgt)
+    elif r < 0.6:
+        b.add(op="new_version", arg=tgt, kw=b.mk({"name": "renamed"}))
+    elif r < 0.8:
+        st = b.add(op="store_new", kind="memory", arg=None)
+        b.add(op="store_add", store=st, arg=rng.choice(objs + [fd]))
+    else:
+        b.add(op="bundle", cls="v21.Bundle", args=objs[:2], allow_custom=True)
+    return b.case()
+
+
+SNAPSHOT_ONLY = [(sc_api, 3), (sc_stores, 2), (sc_custom_types, 2)]
+
+
+KIND_OF = {sc_custom_types: "custom-types", sc_api_markings: "api-markings", sc_extensions: "extensions", sc_observed: "observed-data", sc_sdo: "sdo", sc_markings: "markings",
            sc_bundle_store: "bundle-store", sc_store_get: "store-get", sc_factory: "factory", sc_refusals: "refusals",
            sc_api: "api", sc_stores: "stores"}
 
